@@ -518,6 +518,11 @@ def c04(ctx):
                                                      "meaning": "decoder control invariant inductive over all 256 byte values"}
         if not (base and step):
             raise vlib.ToolError("Apalache: the decoder invariant of the specification is not inductive (specification problem)")
+        proved, total = vlib.tlapm_check(os.path.join(vlib.SPECS, "tlaps", "DecoderProof.tla"))
+        ctx.extra["tlaps_proof"] = {"module": "tlaps/DecoderProof.tla", "obligations": total, "discharged": proved,
+                                    "theorems": ["Init => IndInv", "IndInv /\\ [Next]_vars => IndInv'"]}
+        if proved != total:
+            raise vlib.ToolError("TLAPS: %d of %d obligations of DecoderProof not discharged (specification problem)" % (total - proved, total))
     paths = decoder_graph(ctx)
     # (b) every transition of the closed graph that lies within C04's unit grammar replayed
     # on the real InputGenerator (the others are C02's: see there)
